@@ -323,6 +323,11 @@ func genPPTX(c *fw.Ctx, idx int, o genOpts) ([]byte, *pkgModel) {
 			names[i] = fmt.Sprintf("ppt/slides/slide%d.xml", nums[i])
 		case "renamed":
 			names[i] = fmt.Sprintf("ppt/slides/%s.xml", words[ws[i]])
+			if idx%2 == 1 { // part names with upper-case letters (each target is spelled as the member is stored)
+				w := words[ws[i]]
+				names[i] = fmt.Sprintf("ppt/slides/%s%s.%s", strings.ToUpper(w[:1]), w[1:], []string{"xml", "XML"}[i%2])
+				f.add("part-names-with-upper-case")
+			}
 		case "nested":
 			names[i] = fmt.Sprintf("ppt/slides/%s/slide%d.xml", []string{"a", "b"}[i%2], nums[i])
 		case "otherdir":
